@@ -53,3 +53,8 @@ for _k, (_t, _v) in REFS.items():
     CATALOGUE[_k] = CATALOGUE[_t]
 
 FMT_LOCALES = ["en", "fr", "de", "ar", "zh-Hant-TW"]
+
+# keys that are also rendered for other VALUES than the fixed one (value universe: spec/FormatterValues.tla)
+VALKEYS = {"number": ["f_n1", "f_n3"], "currency": ["f_c2"], "list": ["f_l1", "f_l3", "f_l4"], "date": ["f_d2"], "time": ["f_t2"],
+           "datetime": ["f_dt2"]}
+NUM_TYPES = ["u8", "u16", "u32", "u64", "u128", "usize", "i8", "i16", "i32", "i64", "i128", "isize", "f32", "f64", "dec"]
